@@ -199,6 +199,11 @@ def cases(tier, seed):
           add(ls=2, dims=2, units=2, terms=1, mono=mono, omin=omin, omax=omax, mode=mode, required=not two, timeout=100 if not two else 30)
   add(ls=2, dims=2, units=1, terms=1, mono=[1, 0], omin=0.0, omax=1.0, mode='scale-first', clip=False)
   add(ls=3, dims=2, units=1, terms=1, mono=[1, 1], omin=None, omax=None, mode='kernel-first', clip=False, required=False)
+  # bounds whose interval does not contain 0 / is far from 0 (midpoint and half-width differ in sign or size)
+  for (lo, hi) in ((2.0, 3.0), (-4.0, -3.0), (1.0, 2.5)):
+    for mode in ('scale-first', 'finalize'):
+      add(ls=2, dims=2, units=1, terms=1, mono=[1, 0], omin=lo, omax=hi, mode=mode)
+    add(ls=2, dims=2, units=2, terms=2, mono=[0, 0], omin=lo, omax=hi, mode='kernel-first', required=False, timeout=100)
   if tier == 'thorough':
     for mode in ('scale-first', 'kernel-first'):
       for mono in (None, [1, 0, 1], [0, 0, 1]):
